@@ -8,7 +8,7 @@ KINDS = ["func", "method", "classmethod", "staticmethod", "property", "inherited
 # resolvability class of each kind (DESIGN 3.4)
 MAY = {"lambda", "setprop", "nested_static"}
 FLAVOUR_OK = {"func", "method", "classmethod", "staticmethod", "inherited", "wrapped", "innerclass"}
-EXITS = ["const", "constnone", "expr", "param", "implicit", "raise"]
+EXITS = ["const", "constnone", "expr", "param", "implicit", "raise", "cond"]
 PK = ["posonly", "poskw", "kwonly"]
 
 
@@ -35,6 +35,9 @@ def function(draw, idx):
     kind = draw(st.sampled_from(KINDS))
     noparams = kind in ("property", "setprop")
     f = dict(idx=idx, kind=kind, params=dict(ps=[], varargs=False, varkw=False) if noparams else draw(params()))
+    for j, p in enumerate(f["params"]["ps"]):
+        p["name"] = "p%dx%d" % (idx, j)  # unique across the module: generated TypedDict class names derive from them
+    f["anno"] = draw(st.sampled_from([False, False, True]))
     f["flavour"] = draw(st.sampled_from(["plain", "plain", "gen", "coro"])) if kind in FLAVOUR_OK else "plain"
     f["rebind"] = draw(st.sampled_from(["no", "no", "rebind", "del"]))
     f["callee"] = draw(st.one_of(st.none(), st.integers(0, idx - 1))) if idx > 0 else None
@@ -42,7 +45,7 @@ def function(draw, idx):
     f["catch"] = draw(st.booleans())
     f["recurse"] = draw(st.booleans()) and f["flavour"] == "plain" and kind in ("func", "method", "classmethod", "staticmethod")
     f["exit"] = draw(st.sampled_from(EXITS))
-    f["yields"] = draw(st.lists(st.sampled_from(["@p", "1", "'y'", "None", "[1.5]", "{'a': 1}"]), max_size=4)) if f["flavour"] == "gen" else []
+    f["yields"] = draw(st.lists(st.sampled_from(["@p", "1", "'y'", "None", "[1.5]", "{'a': 1}", "@cond", "@cond"]), max_size=4)) if f["flavour"] == "gen" else []
     f["awaits"] = draw(st.integers(0, 3)) if f["flavour"] == "coro" else 0
     return f
 
@@ -72,6 +75,8 @@ def sig_src(f, receiver=None):
     kw = [p for p in ps if p["kind"] == "kwonly"]
 
     def fmt(p):
+        if f.get("anno") and f["kind"] != "lambda":
+            return p["name"] + ": object" + (" = " + p["default"] if p["default"] is not None else "")
         return p["name"] + ("=" + p["default"] if p["default"] is not None else "")
 
     if receiver:
@@ -88,6 +93,10 @@ def sig_src(f, receiver=None):
     if f["params"]["varkw"]:
         parts.append("**vk")
     return ", ".join(parts)
+
+
+def ret_src(f):
+    return " -> object" if f.get("anno") else ""
 
 
 def distribute(f, vals_):
@@ -211,7 +220,8 @@ def render(prog):
                 B += callsite(g, pos_args, kw_args, ind, catch=f["catch"])
         if f["flavour"] == "gen":
             for y in f["yields"]:
-                yv = (first or "0") if y == "@p" else y
+                # "@cond": the yielded type depends on the argument's value, not on its type
+                yv = (first or "0") if y == "@p" else (f"(1 if {first} else 's')" if first else "1.5") if y == "@cond" else y
                 B.append(f"{ind}yield {yv}")
                 if f["rebind"] == "rebind" and first:
                     B.append(f"{ind}{first} = ('rebound', {first})")
@@ -237,6 +247,8 @@ def render(prog):
             B.append(f"{ind}return [{ret_first or 1}]")
         elif e == "param":
             B.append(f"{ind}return {ret_first}" if ret_first else f"{ind}return (1, 2)")
+        elif e == "cond":
+            B.append(f"{ind}return (1 if {ret_first} else 's')" if ret_first else f"{ind}return 1.5")
         elif e == "raise":
             B.append(f"{ind}raise S.BadExit('x')")
         elif e == "implicit":
@@ -249,7 +261,7 @@ def render(prog):
         if kd in ("func", "wrapped"):
             if kd == "wrapped":
                 top.append("@S.deco")
-            top.append(f"{a}def F{i}({sig_src(f)}):")
+            top.append(f"{a}def F{i}({sig_src(f)}){ret_src(f)}:")
             top += body(f, "    ")
         elif kd == "lambda":
             ps = f["params"]["ps"]
@@ -285,7 +297,7 @@ def render(prog):
             pad = "        " if dest is inner else "    "
             if dec:
                 dest.append(pad + dec)
-            dest.append(f"{pad}{a}def F{i}({sig_src(f, recv)}):")
+            dest.append(f"{pad}{a}def F{i}({sig_src(f, recv)}){ret_src(f)}:")
             if kd == "override":
                 # call the base implementation through super(), recorded
                 pos_args, kw_args = distribute(f, [])
